@@ -350,6 +350,12 @@ func check(id, tier string) int {
 	if tier == "thorough" {
 		capS = cfg.ThorCapS
 	}
+	if v := os.Getenv("VERIF_CAP_S"); v != "" {
+		// (for trying out the cap itself)
+		if x, err := strconv.Atoi(v); err == nil && x > 0 {
+			capS = x
+		}
+	}
 	total := core.NewStats()
 	fps := map[uint64]struct{}{}
 	var found []partFound
@@ -383,7 +389,7 @@ func check(id, tier string) int {
 				defer wg.Done()
 				job := core.Job{Property: part.Key, Tier: tier, Mode: "explore", Seed: seed, From: int64(w), To: runs, Stride: int64(nw),
 					Deadline: deadline.Unix(), Worker: w}
-				outs[w] = runWorker(tmp, bin, job, pcfg, time.Duration(capS)*time.Second+5*time.Minute)
+				outs[w] = runWorker(tmp, bin, job, pcfg, time.Duration(capS)*time.Second+15*time.Minute)
 			}(w)
 		}
 		wg.Wait()
